@@ -285,6 +285,31 @@ def unbrace(b):
     return b
 
 
+def canon_loop(src, fname, canon_params):
+    """Body of the definition of `fname`, canonicalised for the loop patterns: parameters renamed positionally to `canon_params`,
+    the (single) int local renamed to `i`, whitespace removed, optional braces dropped, declaration and initialisation merged."""
+    from .cshape import find_def
+    d = find_def(src, fname)
+    if d is None:
+        return ""
+    params, body = d
+    if len(params) != len(canon_params):
+        return squeeze(body)
+    ren = dict((p, "\x00%d\x00" % i) for i, p in enumerate(params))
+    m = re.search(r"\bint\s+(?:const\s+)?([A-Za-z_]\w*)\s*(?:=|;)", body)
+    if m and m.group(1) not in params and len(re.findall(r"\b(?:int|size_t|long|unsigned|char)\s+[\*\w]", body)) == 1:
+        ren[m.group(1)] = "\x00i\x00"
+    # strings are kept as they are
+    parts = re.split(r'("(?:\\.|[^"\\])*")', body)
+    for k in range(0, len(parts), 2):
+        parts[k] = re.sub(r"\b[A-Za-z_]\w*\b", lambda mm: ren.get(mm.group(0), mm.group(0)), parts[k])
+    body = "".join(parts)
+    for i, c in enumerate(canon_params):
+        body = body.replace("\x00%d\x00" % i, c)
+    body = body.replace("\x00i\x00", "i")
+    return unbrace(squeeze(body))
+
+
 def lookup_shape(run):
     """Recognise the generic lookup functions and the per-registry wrappers.
     Returns (sentinel or None, ok, problems)."""
@@ -297,7 +322,7 @@ def lookup_shape(run):
     cmp_n = eq(r"strcmp\(regArray\[i\],itemName\)")
     sentinels = []
     # the two loops (also tied behaviourally: stream "generic" of the check)
-    b = unbrace(squeeze(def_body(g, "snoopy_genericregistry_getCount")))
+    b = canon_loop(g, "snoopy_genericregistry_getCount", ["regArray"])
     m = (re.fullmatch(r"inti=0;while\(" + ne(cmp_s) + r"\)i\+\+;returni;", b)
          or re.fullmatch(r"for\(inti=0;" + ne(cmp_s) + r";i\+\+\);returni;", b)
          or re.fullmatch(r"inti=0;for\(;" + ne(cmp_s) + r";i\+\+\);returni;", b))
@@ -305,7 +330,7 @@ def lookup_shape(run):
         sentinels.append([x for x in m.groups() if x is not None][0])
     else:
         probs.append("genericregistry getCount: loop not of a recognised form (while/for up to the sentinel, counting): %s" % b[:120])
-    b = unbrace(squeeze(def_body(g, "snoopy_genericregistry_getIdFromName")))
+    b = canon_loop(g, "snoopy_genericregistry_getIdFromName", ["regArray", "itemName"])
     m = (re.fullmatch(r"for\(inti=0;" + ne(cmp_s) + r";i\+\+\)if\(" + cmp_n + r"\)returni;return-1;", b)
          or re.fullmatch(r"inti=0;while\(" + ne(cmp_s) + r"\)\{if\(" + cmp_n + r"\)returni;i\+\+;\}return-1;", b))
     if m:
